@@ -843,6 +843,92 @@ theorem ssq_tail {k : List α} (hk : ssq k = k) : ssq k.tail = k.tail :=
 
 end L10sq
 
+/-! ## L17 : removing a pair of labels from a key (degree reduction by substitution) -/
+
+section L17
+variable [CommRing R] [DecidableEq α] {x : α → R}
+
+theorem bool_mul_self {r : R} (hr : r = 0 ∨ r = 1) : r * r = r := by
+  rcases hr with h | h <;> simp [h]
+
+/-- the monomial of the sub-list of all occurrences of `a` and `b` -/
+theorem mono_removed_pair (hx : ∀ i, x i = 0 ∨ x i = 1) (a b : α) (k : List α) :
+    mono x (k.filter (fun i => decide (i = a ∨ i = b)))
+      = (if a ∈ k then x a else 1) * (if b ∈ k ∧ b ≠ a then x b else 1) := by
+  have key : mono x (k.filter (fun i => decide (i = a ∨ i = b)))
+      = mono x ((if a ∈ k then [a] else []) ++ (if b ∈ k ∧ b ≠ a then [b] else [])) := by
+    apply mono_bool_same_members hx
+    intro i
+    simp only [List.mem_filter, List.mem_append, decide_eq_true_eq]
+    by_cases hba : b = a
+    · subst hba
+      by_cases hb : b ∈ k
+      · simp only [hb, if_true, ne_eq, not_true_eq_false, and_false, if_false, or_self,
+          List.mem_singleton, List.not_mem_nil, or_false]
+        constructor
+        · exact fun h => h.2
+        · rintro rfl; exact ⟨hb, rfl⟩
+      · simp only [hb, if_false, false_and, or_self, List.not_mem_nil, iff_false, not_and]
+        rintro hi rfl; exact hb hi
+    · by_cases ha : a ∈ k <;> by_cases hb : b ∈ k
+      all_goals simp only [ha, hb, hba, ne_eq, not_false_eq_true, and_self, and_true,
+        if_true, if_false, List.mem_singleton, List.not_mem_nil, or_false, false_or,
+        or_self, iff_false, not_and, not_or]
+      · constructor
+        · exact fun h => h.2
+        · rintro (rfl | rfl)
+          · exact ⟨ha, Or.inl rfl⟩
+          · exact ⟨hb, Or.inr rfl⟩
+      · constructor
+        · rintro ⟨hi, rfl | rfl⟩
+          · rfl
+          · exact absurd hi hb
+        · rintro rfl; exact ⟨ha, Or.inl rfl⟩
+      · constructor
+        · rintro ⟨hi, rfl | rfl⟩
+          · exact absurd hi ha
+          · rfl
+        · rintro rfl; exact ⟨hb, Or.inr rfl⟩
+      · rintro hi
+        exact ⟨fun h => ha (h ▸ hi), fun h => hb (h ▸ hi)⟩
+  rw [key, mono_append]
+  by_cases ha : a ∈ k <;> by_cases hb : b ∈ k ∧ b ≠ a <;> simp [ha, hb, mono_nil, mono_singleton]
+
+/-- a key containing `a` and `b`: the remaining labels times `x a * x b` -/
+theorem mono_reduce_pair (hx : ∀ i, x i = 0 ∨ x i = 1) (a b : α) (k : List α) (ha : a ∈ k)
+    (hb : b ∈ k) :
+    mono x k = mono x (k.filter (fun i => decide (¬ (i = a ∨ i = b)))) * (x a * x b) := by
+  rw [mono_split x (fun i => i = a ∨ i = b) k, mono_removed_pair hx a b k]
+  by_cases hba : b = a
+  · subst hba
+    simp [ha, bool_mul_self (hx b)]
+  · simp [ha, hb, hba]
+
+/-- the same after substituting an auxiliary label `z` whose value is the product -/
+theorem mono_reduce_pair_subst (hx : ∀ i, x i = 0 ∨ x i = 1) (a b z : α) (k : List α)
+    (ha : a ∈ k) (hb : b ∈ k) (hz : x z = x a * x b) :
+    mono x k = mono x (k.filter (fun i => decide (¬ (i = a ∨ i = b)))) * x z := by
+  rw [hz]
+  exact mono_reduce_pair hx a b k ha hb
+
+end L17
+
+section L17real
+
+theorem gadget_never_undercuts (xa xb z m v lam : ℝ) (hxa : xa = 0 ∨ xa = 1)
+    (hxb : xb = 0 ∨ xb = 1) (hz : z = 0 ∨ z = 1) (hm : m = 0 ∨ m = 1) (hlam : |v| ≤ lam) :
+    v * (xa * xb) * m ≤ lam * (3 * z + xa * xb - 2 * xa * z - 2 * xb * z) + v * z * m := by
+  obtain ⟨h1, h2⟩ := abs_le.mp hlam
+  rcases hxa with rfl | rfl <;> rcases hxb with rfl | rfl <;> rcases hz with rfl | rfl <;>
+    rcases hm with rfl | rfl <;> norm_num <;> linarith
+
+theorem gadget_exact (xa xb z lam : ℝ) (hz : z = xa * xb) (hxa : xa = 0 ∨ xa = 1)
+    (hxb : xb = 0 ∨ xb = 1) : lam * (3 * z + xa * xb - 2 * xa * z - 2 * xb * z) = 0 := by
+  subst hz
+  rcases hxa with rfl | rfl <;> rcases hxb with rfl | rfl <;> norm_num
+
+end L17real
+
 /-! ## set-facts : `memset k = k.toFinset`, cardinalities -/
 
 section SetFacts
@@ -2804,3 +2890,9 @@ end Qvc
 #print axioms Qvc.red_penM_lift
 #print axioms Qvc.red_penM_isLeast_iff
 #print axioms Qvc.red_penM_exists_minimiser
+#print axioms Qvc.bool_mul_self
+#print axioms Qvc.mono_removed_pair
+#print axioms Qvc.mono_reduce_pair
+#print axioms Qvc.mono_reduce_pair_subst
+#print axioms Qvc.gadget_never_undercuts
+#print axioms Qvc.gadget_exact
